@@ -67,7 +67,7 @@ def worker(args):
             presigs[pre] = sig
             sub.violation(sig, dict(model=name, fixture=fixture, history=small, read=which, inconsistent=bad2),
                           'after %r the two ends disagree: %s' % (small, bad2))
-    ex.run(3 if tier != 'quick' and sx.deep_model(name) else 2, None, order=sx.seeded_order(seed), on_state=on_state)
+    ex.run(3 if tier != 'quick' and sx.deep_model(name, fixture) else 2, None, order=sx.seeded_order(seed), on_state=on_state)
     env.close()
     for s in ex.samples: sub.sample(s)
     return dict(sub=sub.dump(), states=ex.states, transitions=ex.transitions, executions=ex.executions)
@@ -76,7 +76,7 @@ def run(ctx):
     agg = sx.run_catalogue(ctx, worker, tier='quick' if ctx.quick else 'thorough')
     ctx.guard('views checked', ctx.counters.get('views_checked', 0), 1000)
     ctx.cov['per_model'] = agg['per_model']
-    ctx.cov['bounds'] = 'every distinct state reachable by histories of depth <= %s from every fixture; view read without and with a preceding flush' % ('2' if ctx.quick else '3 (one model per relationship kind plus casc3 and mix3; 2 for the option variants)')
+    ctx.cov['bounds'] = 'every distinct state reachable by histories of depth <= %s from every fixture; view read without and with a preceding flush' % ('2' if ctx.quick else '3 (plain one-to-many and many-to-many models from the populated fixture; 2 for the option variants)')
     ctx.assume('SQLite only; two objects per entity + one creatable')
     return dict(states=agg['states'], transitions=agg['transitions'],
                 traces_validated_against_impl=agg['executions'] + ctx.counters.get('views_checked', 0))
